@@ -2,6 +2,7 @@ package e4
 
 import (
 	"bufio"
+	"crypto/tls"
 	"fmt"
 	"io"
 	"net/http"
@@ -36,10 +37,16 @@ type Addressing struct {
 	Token    string
 	TokenHdr string // header carrying the token (default Authorization)
 	Extra    map[string]string
+	// TLS: the proxy port speaks TLS (https / wss with this client config)
+	TLS *tls.Config
 }
 
 func DoHTTP(addr string, a Addressing) Result {
-	req, _ := http.NewRequest("GET", "http://"+addr+"/probe", nil)
+	scheme := "http"
+	if a.TLS != nil {
+		scheme = "https"
+	}
+	req, _ := http.NewRequest("GET", scheme+"://"+addr+"/probe", nil)
 	switch a.Mode {
 	case "host":
 		req.Host = a.Endpoint + ".piko.test"
@@ -62,7 +69,11 @@ func DoHTTP(addr string, a Addressing) Result {
 	for k, v := range a.Extra {
 		req.Header.Set(k, v)
 	}
-	resp, err := Client().Do(req)
+	cl := Client()
+	if a.TLS != nil {
+		cl.Transport = &http.Transport{DisableKeepAlives: true, Proxy: nil, TLSClientConfig: a.TLS}
+	}
+	resp, err := cl.Do(req)
 	if err != nil {
 		return Result{Err: err.Error()}
 	}
@@ -87,8 +98,12 @@ func DoTCP(addr string, a Addressing) Result {
 	for k, v := range a.Extra {
 		h.Set(k, v)
 	}
-	d := &websocket.Dialer{HandshakeTimeout: 20 * time.Second}
-	ws, resp, err := d.Dial("ws://"+addr+"/_piko/v1/tcp/"+a.Endpoint, h)
+	d := &websocket.Dialer{HandshakeTimeout: 20 * time.Second, TLSClientConfig: a.TLS}
+	wsScheme := "ws"
+	if a.TLS != nil {
+		wsScheme = "wss"
+	}
+	ws, resp, err := d.Dial(wsScheme+"://"+addr+"/_piko/v1/tcp/"+a.Endpoint, h)
 	if err != nil {
 		r := Result{Err: err.Error()}
 		if resp != nil {
